@@ -15,6 +15,7 @@ from ..rules import (
     index_method_entries,
     inline_methods,
     reftuple_args,
+    other_kind_call,
     self_call,
     state_closure,
     where,
@@ -41,6 +42,13 @@ LONGEST = {"longest_prefix_item": "item", "longest_prefix": "key", "longest_pref
 def check_table_roles(cx: Cx, ob: Ob, tables_wanted: list[str]) -> None:
     ctor = constructor_tables(cx, ob.id)
     idx = index_method_entries(cx, cx.fn(f"{CONV}._index", ob.id), ob.id)
+    ixfn = cx.fn(f"{CONV}._index", ob.id)
+    import ast as _ast
+
+    rec_params = [p.name for p in ixfn.params if p.annotation is not None and "Record" in _ast.unparse(p.annotation)]
+    two_records = len(rec_params) > 1
+    if two_records:
+        ob.undecide(f"_index takes two records ({', '.join(rec_params)}): which of them the keys and which the values must come from depends on what its call sites pass, which this rule does not relate")
     for table in tables_wanted:
         key_fields, value_field = TABLES[table]
         for origin, entries in (("constructor", ctor.get(table)), ("_index", idx.get(table))):
@@ -72,7 +80,7 @@ def check_table_roles(cx: Cx, ob: Ob, tables_wanted: list[str]) -> None:
                     from ..rules import Prov as _P
 
                     vrec = e.value[1] if op(e.value) == "attr" else None
-                    if vrec is not None and vrec != e.record:
+                    if vrec is not None and vrec != e.record and not (two_records and origin == "_index"):
                         ob.violate(e.fn, e.site, f"{table}: key and value come from different records", detail=f"{table}:cross-record")
             for f in sorted(key_fields):
                 good = [e for e in entries if f in e.key_fields and e.value_field == value_field]
@@ -432,7 +440,7 @@ def is_uri_check(cx: Cx, ob: Ob) -> None:
                     detail="truthiness-of-keys",
                 )
             elif self_call(t, me) and t[1][2] not in ("compress", "parse_uri"):
-                ob.violate(fn.qualname, fn.where, f"is_uri is defined through `{show(t)[:60]}`, not through compress/parse_uri of its argument", detail="callee")
+                ob.funnel(fn.qualname, fn.where, f"is_uri is defined through `{show(t)[:60]}`, not through compress/parse_uri of its argument", any(self_call(y, me) and y[1][2] in ("compress", "parse_uri", "compress_strict") for r_, _ in s.returns() for y in subterms(r_)), "compress / parse_uri", wrong=other_kind_call(t, me, "uri"))
             elif op(t) == "call" and op(t[1]) == "attr" and t[1][1] == arg and t[1][2] == "startswith" and len(t[2]) == 1:
                 # s.startswith(tuple(TABLE)): some registered URI prefix is a prefix of s - the same set of strings as
                 # "the longest-prefix lookup succeeds" exactly when TABLE holds every URI prefix and synonym
@@ -475,7 +483,7 @@ def is_uri_check(cx: Cx, ob: Ob) -> None:
             if x[1][2] == "parse_uri" and not is_const(kw.get("return_none"), True):
                 ob.violate(fn.qualname, fn.where, "is_uri tests parse_uri(...) without return_none=True; the legacy (None, None) result is not None", detail="return-none")
         else:
-            ob.violate(fn.qualname, fn.where, f"is_uri is defined through `{show(x)[:60]}`, not through compress/parse_uri of its argument", detail="callee")
+            ob.funnel(fn.qualname, fn.where, f"is_uri is defined through `{show(x)[:60]}`, not through compress/parse_uri of its argument", any(self_call(y, me) and y[1][2] in ("compress", "parse_uri", "compress_strict") for r_, _ in s.returns() for y in subterms(r_)), "compress / parse_uri", wrong=other_kind_call(t, me, "uri"))
 
 
 @obligation("C01-D5", "order independence: every write to reverse_prefix_map/trie is a keyed store whose key and value depend only on the record being indexed", floor=4)
